@@ -34,14 +34,16 @@ def _tree_hash(repo):
     return h.hexdigest()[:24]
 
 
-def facts(repo):
-    """list of fact dicts for the current working tree of `repo` (all features)"""
+def facts(repo, features=None):
+    """list of fact dicts for the current working tree of `repo`; features=None: all features, else a list of feature names
+    (--no-default-features --features ...)"""
     repo = os.path.abspath(repo)
-    if repo in _cache:
-        return _cache[repo]
+    ck = (repo, None if features is None else tuple(features))
+    if ck in _cache:
+        return _cache[ck]
     if not os.path.exists(DRIVER):
         raise ToolError('mirfacts driver not built: run MANIFEST.setup_cmd (%s missing)' % DRIVER)
-    key = _tree_hash(repo)
+    key = _tree_hash(repo) + ('' if features is None else '-' + ('_'.join(features) or 'none'))
     cdir = os.path.join(VERIF, '.cache')
     cfile = os.path.join(cdir, 'mirfacts-%s.jsonl' % key)
     if not os.path.exists(cfile):
@@ -56,7 +58,8 @@ def facts(repo):
                         'RUSTFLAGS': '-Zmir-opt-level=0 -Awarnings', 'MIRFACTS_OUT': out, 'RUSTC_WORKSPACE_WRAPPER': DRIVER,
                         'CARGO_TARGET_DIR': os.path.join(tmp, 'target'), 'CARGO_NET_OFFLINE': 'true'})
             env.pop('RUSTC_WRAPPER', None)
-            p = subprocess.run(['cargo', '+nightly', 'check', '--offline', '--lib', '--all-features', '--manifest-path', os.path.join(repo, 'Cargo.toml')],
+            fl = ['--all-features'] if features is None else ['--no-default-features'] + (['--features', ','.join(features)] if features else [])
+            p = subprocess.run(['cargo', '+nightly', 'check', '--offline', '--lib'] + fl + ['--manifest-path', os.path.join(repo, 'Cargo.toml')],
                                capture_output=True, text=True, env=env, cwd=repo)
             if p.returncode != 0:
                 raise ToolError('cargo +nightly check under the MIR driver failed: ' + p.stderr[-1500:])
@@ -64,14 +67,14 @@ def facts(repo):
                 raise ToolError('the MIR driver produced no fact file (crate not compiled through the wrapper?)')
             os.makedirs(cdir, exist_ok=True)
             old = sorted((os.path.join(cdir, x) for x in os.listdir(cdir) if x.startswith('mirfacts-')), key=os.path.getmtime)
-            for x in old[:-3]:
+            for x in old[:-40]:
                 os.remove(x)
             shutil.copy(out, cfile + '.tmp')
             os.replace(cfile + '.tmp', cfile)
         finally:
             shutil.rmtree(tmp, ignore_errors=True)
     rows = [json.loads(l) for l in open(cfile) if l.strip()]
-    _cache[repo] = rows
+    _cache[ck] = rows
     return rows
 
 
@@ -164,3 +167,14 @@ def env_call(r):
         if c.startswith(p) or (' as ' in r['callee'] and r['callee'].lstrip('<').startswith(p)):
             return p
     return None
+
+
+TRAIT_FEATURES = ['Debug', 'Clone', 'Copy', 'PartialEq', 'Eq', 'PartialOrd', 'Ord', 'Hash', 'Default', 'Deref', 'DerefMut', 'Into']
+
+
+def configs(tier):
+    """feature configurations whose MIR is examined: quick = all features; thorough adds every single feature and six co-singletons (the empty set is a compile_error by design), so
+    that code under #[cfg(not(feature = ..))] (invisible in the all-features build) is seen by rustc too"""
+    if tier != 'thorough':
+        return [None]
+    return [None] + [[f] for f in TRAIT_FEATURES] + [[f for f in TRAIT_FEATURES if f != g] for g in ('PartialOrd', 'Ord', 'Eq', 'PartialEq', 'Copy', 'Clone')]
